@@ -72,6 +72,34 @@ def run_case(spec):
             viol("points_bad_shape", {"op": what, "shape": list(p.shape)})
 
     valueerrors = 0
+    # finely sampled outlines far from the origin (vertex spacing far below 1e-5 of the coordinates): stored closed all the same
+    from tdgl.geometry import circle as _circle
+
+    for j in range(3):
+        scale_f = float(10.0 ** rng.uniform(-1, 1))
+        cen_f = tuple((np.array([rng.choice([-1, 1]), rng.choice([-1, 1])]) * rng.uniform(1e3, 1e4, 2) * scale_f).tolist())
+        far_pts = _circle(scale_f, points=int(rng.integers(800, 2000)), center=cen_f)
+        pf = tdgl.Polygon("far", points=far_pts if j % 2 else far_pts[::-1])
+        check_stored(pf, "init_far_fine")
+        near = tdgl.Polygon("near", points=_circle(scale_f, points=int(rng.integers(1000, 1600)), center=(0.0, 0.0)))
+        moved = near.translate(cen_f[0], cen_f[1])
+        check_stored(moved, "translate_far_fine")
+        cnt("transform_checks")
+        if len(moved.points) != len(near.points):
+            viol("translate_changes_vertex_count", {"before": len(near.points), "after": len(moved.points)})
+        try:
+            un = pf.union(moved)
+            check_stored(un, "union_far_fine")
+        except ValueError:
+            pass
+        # membership far from the origin: winding number of the stored outline vs contains_points
+        Pf = np.array(cen_f) + rng.uniform(-1.5, 1.5, (40, 2)) * scale_f
+        inf_, df_ = inside(Pf, pf.points)
+        okf = df_ > 1e-4 * scale_f
+        gotf = np.asarray(pf.contains_points(Pf))
+        cnt("setop_checks")
+        if np.any(okf & (gotf != inf_)):
+            viol("membership_wrong_far_from_origin", {"n_wrong": int(np.sum(okf & (gotf != inf_)))})
     for _ in range(spec["pairs"]):
         scale = float(10.0 ** rng.uniform(-2, 2))
         a_pts = rand_shape(rng, scale)
